@@ -43,6 +43,7 @@ var instants = []int{-1, 0, 1741, 1799, 1800, 1801, 1861} // -1: one second more
 type txset struct {
 	T, T2, U, B, Bt *types.Transaction // T2 = T re-encoded; B = box(T,U); Bt = box(U) (no T)
 	T3              *types.Transaction // T with a second signature, by an outsider, appended to its list
+	B2              *types.Transaction // box(T) whose own expiration is t0+100
 	V               *types.Transaction // a payload expiring early (t0+10)
 }
 
@@ -57,6 +58,9 @@ func mkTxs() txset {
 	s.U = node.Transfer(node.User(2), node.User(1).Addr, node.Lemo(2), exp)
 	s.B = node.Box(node.User(3), exp, s.T, s.U)
 	s.V = node.Transfer(node.User(0), node.User(1).Addr, node.Lemo(3), uint64(t0+10))
+	// a box that itself expires early (t0+100) around the long-lived T: at the instant -1 the box is
+	// inside its own window while its sub-transaction is one second too early
+	s.B2 = node.Box(node.User(3), uint64(t0+100), s.T)
 	return s
 }
 
@@ -116,6 +120,8 @@ func (s txset) list(name string) types.Transactions {
 		return types.Transactions{s.U}
 	case "B":
 		return types.Transactions{s.B}
+	case "B2":
+		return types.Transactions{s.B2}
 	case "TT":
 		return types.Transactions{s.T, s.T}
 	case "TB":
@@ -423,7 +429,7 @@ func (w *world) parentOf(b *types.Block) *types.Block {
 }
 
 var lists = map[string][]string{
-	"lin":   {"-", "T", "T2", "T3", "B", "TT", "TB", "V"},
+	"lin":   {"-", "T", "T2", "T3", "B", "B2", "TT", "TB", "V"},
 	"fork":  {"-", "T", "T2", "T3", "B", "U"},
 	"miner": {"T", "U"},
 }
